@@ -904,7 +904,7 @@ func RunC07(tier string) int {
 		for k, i := range multi {
 			margs[k] = map[string]any{"parser": "ParseSource", "s": seeds[i]}
 		}
-		mapOrdBudget = 150 * time.Second
+		mapOrdBudget = 240 * time.Second
 		if thorough {
 			mapOrdBudget = 20 * time.Minute
 		}
